@@ -479,9 +479,21 @@ func runC20(c *Ctx) {
 		s, n := fn.Params[0], fn.Params[1]
 		// closure of n under decrement and phi
 		var inClosure func(v ssa.Value, seen map[ssa.Value]bool) bool
+		clamped := false // the cut point starts from min(n, len(s)): it can never exceed the length
 		inClosure = func(v ssa.Value, seen map[ssa.Value]bool) bool {
 			if v == ssa.Value(n) {
 				return true
+			}
+			if mn, ok := isBuiltinCall(v, "min"); ok && len(mn.Call.Args) == 2 {
+				isN := func(a ssa.Value) bool { return a == ssa.Value(n) }
+				isLen := func(a ssa.Value) bool {
+					ln, ok := isBuiltinCall(a, "len")
+					return ok && ln.Call.Args[0] == ssa.Value(s)
+				}
+				if (isN(mn.Call.Args[0]) && isLen(mn.Call.Args[1])) || (isN(mn.Call.Args[1]) && isLen(mn.Call.Args[0])) {
+					clamped = true
+					return true
+				}
 			}
 			if seen[v] {
 				return true
@@ -528,10 +540,28 @@ func runC20(c *Ctx) {
 				// under the fact n < len(s)
 				db := factsDBAt(sl.Block())
 				ls := "len(" + sym(s) + ")"
-				if !(db.has(sym(n), token.LSS, ls) || db.has(sym(n), token.LEQ, ls)) {
+				if !(db.has(sym(n), token.LSS, ls) || db.has(sym(n), token.LEQ, ls)) && !clamped {
 					probs = append(probs, "slicing is reachable without n < len(s): s[:n] can panic")
 				}
 				c.judge(len(probs) == 0, "R-TRUNC-PREFIX", key, x.Pos(), "prefix cut at a point ≤ n < len(s)", fmt.Sprint(probs))
+			case *ssa.BinOp:
+				// a step back of the cut point happens only when the string really has to be cut (n < len(s)):
+				// for n ≥ len(s) the result is s itself, whatever its last character is
+				if k, ok := constInt(x.Y); ok && x.Op == token.SUB && k > 0 && isIntType(x.Type()) && inClosure(x.X, map[ssa.Value]bool{}) {
+					used := false
+					for _, r := range referrersOf(x) {
+						switch r.(type) {
+						case *ssa.Phi, *ssa.Slice:
+							used = true
+						}
+					}
+					if !used {
+						return // h-1 as an index, not a new cut point
+					}
+					db := factsDBAt(x.Block())
+					ls := "len(" + sym(s) + ")"
+					c.judge(db.has(sym(n), token.LSS, ls), "R-TRUNC-PREFIX", "mstr.Trunc:backs up only when cutting", x.Pos(), "under n < len(s)", "the cut point is moved back on a path where n < len(s) is not known: for n ≥ len(s) the whole string must be returned, but a string ending in a multi-byte character loses it")
+				}
 			case *ssa.Index:
 				// s[h-1] on a string
 				if x.X != ssa.Value(s) {
